@@ -91,7 +91,7 @@ static StreamOutcome run_stream(const StreamScenario &sc, const StreamPlan &pl, 
     // UDP phase of the upgrade scenario: every UDP transmission is answered with a truncated reply
     if (sc.tc_upgrade)
       for (auto &t : w.txs)
-        if (!t.tcp && !tc_answered.count(t.id) && w.sock(t.fd) && w.sock(t.fd)->open) {
+        if (!t.tcp && !tc_answered.count(t.id) && w.sock_of(t) && w.sock_of(t)->open) {
           tc_answered.insert(t.id);
           w.inject(t.id, RK_TC, false, 0);
           acted = true;
@@ -202,6 +202,8 @@ struct UdpCase {
   int  tries, nsrv, timeouts;
   bool igntc;
   int  zero; // 0: none, 1: a zero-length datagram precedes the answer, 2: plain answer preceded by one (no truncation)
+  int  gai = 0; // 1/2: the request is a dual-family getaddrinfo; the A (1) / AAAA (2) question is answered first, the
+                // other question's answer is truncated: it must still be retried over TCP and both families delivered
 };
 static std::vector<UdpCase> udp_case_list()
 {
@@ -213,6 +215,12 @@ static std::vector<UdpCase> udp_case_list()
           for (int z = 0; z < 2; z++) v.push_back({ tries, nsrv, to, ig != 0, z });
   v.push_back({ 2, 1, 0, false, 2 });
   v.push_back({ 1, 1, 0, false, 2 });
+  for (int tries = 1; tries <= 2; tries++)
+    for (int g = 1; g <= 2; g++) {
+      UdpCase u = { tries, 1, 0, false, 0 };
+      u.gai     = g;
+      v.push_back(u);
+    }
   return v;
 }
 static void udp_cases(vf::Report &rep, bool replay_only, int which, std::vector<std::pair<Viol, int>> &v, std::vector<std::string> *log)
@@ -231,6 +239,11 @@ static void udp_cases(vf::Report &rep, bool replay_only, int which, std::vector<
     std::vector<ReqSpec> reqs(1);
     reqs[0].kind = 2;
     reqs[0].name = "u.stream.example.com";
+    if (u.gai) {
+      reqs[0].kind   = 6;
+      reqs[0].family = AF_UNSPEC;
+      c.name += u.gai == 1 ? "-getaddrinfo-A-first" : "-getaddrinfo-AAAA-first";
+    }
     World w(&c, &reqs);
     if (!w.init()) {
       w.teardown();
@@ -238,6 +251,51 @@ static void udp_cases(vf::Report &rep, bool replay_only, int which, std::vector<
     }
     vf::set_current_case("{\"index\":-" + std::to_string(cs + 1) + ",\"udp_case\":" + std::to_string(cs) + "}", "C20:crash");
     w.issue(0, false);
+    if (u.gai) {
+      auto drain2 = [&]() {
+        for (int k = 0; k < 8 && w.ch && !w.ready_fds(false).empty(); k++) w.do_io(false);
+      };
+      int first = -1, second = -1;
+      for (auto &t : w.txs) {
+        if (!t.q.ok || t.q.q.empty()) continue;
+        bool is_a = t.q.q[0].qtype == vdns::T_A;
+        if ((u.gai == 1) == is_a) first = t.id;
+        else second = t.id;
+      }
+      if (first < 0 || second < 0) w.violate("C20:udp:getaddrinfo-questions-missing", fmt("[%s] the dual-family lookup did not send both questions", c.name.c_str()));
+      else {
+        w.apply(mk(EV_REPLY, first, RK_DATA));
+        drain2();
+        size_t ntx = w.txs.size();
+        w.apply(mk(EV_REPLY, second, RK_TC));
+        drain2();
+        int ttx = -1;
+        for (size_t i = ntx; i < w.txs.size(); i++)
+          if (w.txs[i].tcp) ttx = w.txs[i].id;
+        if (ttx < 0)
+          w.violate("C20:udp:truncated-answer-not-retried-over-tcp",
+                    fmt("[%s] the truncated answer to the second question of a dual-family lookup was not followed by a TCP transmission%s", c.name.c_str(),
+                        w.toks[0].count ? fmt("; the request ended with status %d", w.toks[0].status).c_str() : ""));
+        else {
+          w.apply(mk(EV_REPLY, ttx, RK_DATA));
+          drain2();
+          bool v4 = false, v6 = false;
+          for (auto &a : w.toks[0].addrs) {
+            if (a.fam == AF_INET) v4 = true;
+            if (a.fam == AF_INET6) v6 = true;
+          }
+          if (w.toks[0].count != 1 || w.toks[0].status != ARES_SUCCESS || !v4 || !v6)
+            w.violate("C20:udp:tcp-retry-not-delivered", fmt("[%s] after the TCP retry the lookup must deliver both families (count %d status %d v4 %d v6 %d)", c.name.c_str(), w.toks[0].count, w.toks[0].status, (int)v4, (int)v6));
+          rep.witness("tc_retried_over_tcp_in_dual_lookup");
+        }
+      }
+      w.closure();
+      w.teardown();
+      for (auto &x : w.viols) v.push_back({ x, cs });
+      if (log) *log = w.obs;
+      rep.executions++;
+      continue;
+    }
     auto drain = [&]() {
       for (int k = 0; k < 8 && w.ch && !w.ready_fds(false).empty(); k++) w.do_io(false);
     };
